@@ -222,6 +222,10 @@ def run(ctx):
     with ctx.rule("C08.PERFILE", "per-file searcher state is re-installed for every haystack (no leak between files of one worker; shared with C14.MODE)",
                   floor=2, kind="DOM/GUARD") as r:
         c14.perfile_rule(ctx, r)
+    with ctx.rule("C08.LINEBUF", "a worker's reused line buffer starts every file in the same state, window size included (shared with "
+                  "C02.REFILL|clear)", floor=3, kind="RW") as r:
+        from . import c02
+        c02.clear_rule(ctx, r)
     with ctx.rule("C08.WALK", "no file omitted or added with several threads: the parallel walker decides about a followed symlink "
                   "as the single-threaded one does (shared with C06.HELPERS|follow|first; the full walker parity is C06's)",
                   floor=1, kind="PASS") as r:
